@@ -30,6 +30,7 @@ noncomputable def RC : Fns ℝ ℂ where
   arctan2 := fun y x => Complex.arg ⟨x, y⟩
   rpow := fun x y => x ^ y
   pi := Real.pi
+  nan := 0
   natCast := fun n => (n : ℝ)
   truncNat := fun x => ⌊x⌋₊
   store32 := id
